@@ -174,6 +174,9 @@ TARGETS = {
     "akai.partition:PartitionHeaderConstruct": ("smpl_extract.akai.partition", "PartitionHeaderConstruct"),
     "roland.sample_entry:SampleParamEntryStruct": ("smpl_extract.roland.s7xx.sample_entry", "SampleParamEntryStruct"),
     "roland.sample_entry:SampleParamLoopPointStruct": ("smpl_extract.roland.s7xx.sample_entry", "SampleParamLoopPointStruct"),
+    "akai.program:ProgramHeaderConstruct": ("smpl_extract.akai.program", "ProgramHeaderConstruct"),
+    "akai.keygroup:KeygroupConstruct": ("smpl_extract.akai.keygroup", "KeygroupConstruct"),
+    "akai.keygroup:VelocityZoneConstruct": ("smpl_extract.akai.keygroup", "VelocityZoneConstruct"),
     "formats.wav:WavFormatChunkStruct": ("smpl_extract.formats.wav", "WavFormatChunkStruct"),
     "formats.wav:WavLoopStruct": ("smpl_extract.formats.wav", "WavLoopStruct"),
     "formats.wav:WavSampleChunkStruct": ("smpl_extract.formats.wav", "WavSampleChunkStruct"),
